@@ -101,8 +101,10 @@ enum ActiveChordStatus {
 }
 use ActiveChordStatus::*;
 
-/// Like the layout Queue but smaller.
-pub(crate) type SmolQueue = ArrayDeque<Queued, SMOL_Q_LEN, arraydeque::behavior::Wrapping>;
+/// Holds what a single tick hands over to the layout queue: at most the whole input queue,
+/// a release for every active chord and the two events that trigger tap-hold decisions.
+const DRAIN_Q_LEN: usize = 48;
+pub(crate) type DrainQueue = ArrayDeque<Queued, DRAIN_Q_LEN, arraydeque::behavior::Wrapping>;
 
 /// Global input chords configuration.
 pub struct ChordsV2<'a, T> {
@@ -198,8 +200,8 @@ impl<'a, T> ChordsV2<'a, T> {
 
     /// Update the times in the queue without activating any chords yet.
     /// Returns queued events that are no longer usable in chords.
-    pub(crate) fn tick_chv2(&mut self, active_layer: u16) -> SmolQueue {
-        let mut q = SmolQueue::new();
+    pub(crate) fn tick_chv2(&mut self, active_layer: u16) -> DrainQueue {
+        let mut q = DrainQueue::new();
         self.queue.iter_mut().for_each(Queued::tick_qd);
         let prev_active_chord_len = self.active_chords.len();
         self.active_chords.iter_mut().for_each(tick_ach);
@@ -242,7 +244,7 @@ impl<'a, T> ChordsV2<'a, T> {
         ret
     }
 
-    fn drain_inputs(&mut self, drainq: &mut SmolQueue, active_layer: u16) {
+    fn drain_inputs(&mut self, drainq: &mut DrainQueue, active_layer: u16) {
         if self.ticks_to_ignore_chord > 0 {
             // Releases must still reach the active chords. Otherwise a chord whose last
             // participant is released during the cool-down is never released.
@@ -272,7 +274,7 @@ impl<'a, T> ChordsV2<'a, T> {
         self.process_presses(active_layer);
     }
 
-    fn drain_virtual_keys(&mut self, drainq: &mut SmolQueue) {
+    fn drain_virtual_keys(&mut self, drainq: &mut DrainQueue) {
         self.queue.retain(|qd| {
             match qd.event {
                 // Only row 0 is real inputs.
@@ -287,7 +289,7 @@ impl<'a, T> ChordsV2<'a, T> {
         });
     }
 
-    fn drain_releases(&mut self, drainq: &mut SmolQueue) {
+    fn drain_releases(&mut self, drainq: &mut DrainQueue) {
         let achs = &mut self.active_chords;
         let mut presses = HVec::<_, SMOL_Q_LEN>::new();
         self.queue.retain(|qd| match qd.event {
@@ -523,7 +525,7 @@ impl<'a, T> ChordsV2<'a, T> {
         }
     }
 
-    fn clear_released_chords(&mut self, drainq: &mut SmolQueue) {
+    fn clear_released_chords(&mut self, drainq: &mut DrainQueue) {
         self.active_chords.retain(|ach| {
             if ach.status == Released {
                 let overflow = drainq.push_back(Queued {
